@@ -1,16 +1,20 @@
-(* C10 proofs, part 3: the invariant holds in every reachable state of a program without
-   abandoned calls; the property theorems. *)
-From V Require Import model.Base model.Conc model.Events model.Container proofs.ContainerBase proofs.ContainerInv proofs.ContainerStep.
+(* C10 proofs, part 3: the invariant holds in every reachable state of a program in which every
+   abandoned call is followed by the recover of its owner; the property theorems. *)
+From V Require Import model.Base model.Conc model.Events model.Container proofs.ContainerBase proofs.ContainerInv proofs.ContainerStep proofs.ContainerDirty.
 From Coq Require Import ZifyBool ZifyNat ZifyN.
 Open Scope N_scope.
 
-Lemma inv_init c d0 d1 d2 progs : crash_free progs -> Inv (init c d0 d1 d2 progs).
+Lemma crash_free_is_ok progs : crash_free progs -> crash_ok progs.
+Proof. intros H t. apply crash_free_ok. apply H. Qed.
+
+Lemma inv_init c d0 d1 d2 progs : crash_ok progs -> Inv (init c d0 d1 d2 progs).
 Proof.
   intros Hcf. split.
   - constructor; cbn; intros; try contradiction; try discriminate.
-  - intros t. constructor; unfold PcInv; cbn; auto; try lia; intros; try contradiction; try discriminate; try lia;
+  - intros t. left. constructor; unfold PcInv, L0P; cbn; auto; try lia; intros; try contradiction; try discriminate; try lia;
       try (exfalso; eapply owner_not_empty; symmetry; eassumption).
     all: try (destruct j; discriminate).
+    split; [apply Hcf|]. split; [reflexivity|]. intros Hz. exfalso. apply Hz. reflexivity.
 Qed.
 
 Theorem step_inv t c c' e : Inv c -> step1 step t c = Some (c', e) -> Inv c'.
@@ -18,15 +22,14 @@ Proof.
   destruct c as [g ls]. intros [HG HLs] Hs. unfold step1 in Hs. cbn [fst snd] in *.
   destruct (step t g (ls t)) as [[[g' l'] e']|] eqn:Est; [|discriminate].
   inversion Hs; subst c' e; clear Hs.
-  rewrite (step_is_acc t g (ls t) (HLs t)) in Est.
-  pose proof (step_ok t g (ls t) HG (HLs t)) as H. rewrite Est in H. cbn in H. destruct H as (HGu & HL' & HG').
+  destruct (step_okC t g (ls t) g' l' e' HG (HLs t) Est) as (HGu & HL' & HG').
   split; cbn [fst snd]; [exact HG'|].
   intros t'. destruct (Nat.eq_dec t' t) as [->|Hne].
   - rewrite upd_l_same. exact HL'.
-  - rewrite upd_l_other by auto. eapply linv_stable; eauto.
+  - rewrite upd_l_other by auto. eapply linvc_stable; eauto.
 Qed.
 
-Theorem inv_reach c d0 d1 d2 progs cf : crash_free progs ->
+Theorem inv_reach c d0 d1 d2 progs cf : crash_ok progs ->
   reachable step (init c d0 d1 d2 progs) cf -> Inv cf.
 Proof.
   intros Hcf. apply (inv_reachable cgst clst ev step Inv).
@@ -34,9 +37,37 @@ Proof.
   - intros t c0 c' e HI Hs. eapply step_inv; eauto.
 Qed.
 
+(* what both modes of a thread guarantee *)
+Section Both.
+  Variables (g : cgst) (t : nat) (l : clst).
+  Hypothesis H : LInvC g t l.
+  Lemma c_L1 : rchange l <= change g /\ ustart l <= clock g.
+  Proof. destruct H as [A|A]; [apply (L1 _ _ _ A)|apply (D1 _ _ _ A)]. Qed.
+  Lemma c_L2 i : rgen l i <= gens g i.
+  Proof. destruct H as [A|A]; [apply (L2 _ _ _ A)|apply (D2 _ _ _ A)]. Qed.
+  Lemma c_L6 n e : cells g n = owner_of t e -> e <= epoch l.
+  Proof. destruct H as [A|A]; [apply (L6 _ _ _ A)|apply (D6 _ _ _ A)]. Qed.
+  Lemma c_L8 i : refreshing (pc l) i = false -> odd (rgen l i) = true -> In (rgen l i, rdata l i) (published g i).
+  Proof. destruct H as [A|A]; [apply (L8 _ _ _ A)|intros _; apply (D8 _ _ _ A)]. Qed.
+  Lemma c_L9 i gm c e : In (i, gm, c, e) (oplog g) -> c <= rchange l -> scanned (pc l) i = true -> gm <= rgen l i.
+  Proof. destruct H as [A|A]; [apply (L9 _ _ _ A)|intros H1 H2 _; eapply (D9 _ _ _ A); eauto]. Qed.
+  Lemma c_L10 i gm c e : In (i, gm, c, e) (oplog g) -> e < ustart l -> c <= rchange l.
+  Proof. destruct H as [A|A]; [apply (L10 _ _ _ A)|apply (D10 _ _ _ A)]. Qed.
+  Lemma c_L11 : in_upd (pc l) = false -> ulast l = false -> forall i, uprev l i = rgen l i.
+  Proof. destruct H as [A|A]; [apply (L11 _ _ _ A)|intros _; apply (D11 _ _ _ A)]. Qed.
+  Lemma c_dirty_where : dirty l = true -> (pc l = Idle /\ next_rec (prog l)) \/ rec_true (pc l) = true.
+  Proof.
+    destruct H as [A|A].
+    - destruct (L0 _ _ _ A) as (_ & E & _). congruence.
+    - intros _. apply (D0 _ _ _ A).
+  Qed.
+  Lemma c_clean : dirty l = false -> LInv g t l.
+  Proof. destruct H as [A|A]; auto. destruct (D0 _ _ _ A) as (_ & E & _). congruence. Qed.
+End Both.
+
 Section Props.
   Variables (c d0 d1 d2 : N) (progs : nat -> list cop) (g : cgst) (ls : nat -> clst).
-  Hypothesis Hcf : crash_free progs.
+  Hypothesis Hcf : crash_ok progs.
   Hypothesis Hr : reachable step (init c d0 d1 d2 progs) (g, ls).
 
   Let HI : Inv (g, ls) := inv_reach c d0 d1 d2 progs (g, ls) Hcf Hr.
@@ -45,20 +76,21 @@ Section Props.
   Theorem no_torn t i :
     refreshing (pc (ls t)) i = false -> odd (rgen (ls t) i) = true ->
     In (rgen (ls t) i, rdata (ls t) i) (published g i).
-  Proof. destruct HI as [_ HL]; cbn [fst snd] in HL. apply (L8 _ _ _ (HL t)). Qed.
+  Proof. destruct HI as [_ HL]; cbn [fst snd] in HL. apply (c_L8 _ _ _ (HL t)). Qed.
 
   (* a generation is published at most once per slot, is odd, and is not ahead of the slot *)
   Theorem published_exact i a b b' :
     In (a, b) (published g i) -> In (a, b') (published g i) -> b = b' /\ odd a = true /\ a <= gens g i.
   Proof.
-    destruct HI as [HG _]; cbn [fst snd] in HG. cbn in HG. intros H1 H2. split; [eapply (GC _ HG); eauto|]. eapply (GA _ HG); eauto.
+    destruct HI as [HG _]; cbn [fst snd] in HG. intros H1 H2. split; [eapply (GC _ HG); eauto|]. eapply (GA _ HG); eauto.
   Qed.
 
   (* the data of a slot is only written while its generation is even *)
   Theorem write_only_when_even t v n : pc (ls t) = AddWrite v n -> odd (gens g n) = false.
   Proof.
-    destruct HI as [_ HL]; cbn [fst snd] in HL. intros E. pose proof (L7 _ _ _ (HL t)) as H. unfold PcInv in H. rewrite E in H.
-    destruct H as (_ & _ & _ & H). exact H.
+    destruct HI as [_ HL]; cbn [fst snd] in HL. intros E. destruct (HL t) as [A|A].
+    - pose proof (L7 _ _ _ A) as H. unfold PcInv in H. rewrite E in H. destruct H as (_ & _ & _ & H). exact H.
+    - destruct (D0 _ _ _ A) as (_ & _ & _ & [[E' _]|E']); rewrite E in E'; discriminate.
   Qed.
 
   (* completed operation (slot i has reached generation gm, completion time e) before the start
@@ -66,16 +98,16 @@ Section Props.
   Theorem noticed t i gm ch e :
     In (i, gm, ch, e) (oplog g) -> e < ustart (ls t) -> scanned (pc (ls t)) i = true -> gm <= rgen (ls t) i.
   Proof.
-    destruct HI as [_ HL]; cbn [fst snd] in HL. intros Hin He Hs. eapply (L9 _ _ _ (HL t)); eauto. eapply (L10 _ _ _ (HL t)); eauto.
+    destruct HI as [_ HL]; cbn [fst snd] in HL. intros Hin He Hs. eapply (c_L9 _ _ _ (HL t)); eauto. eapply (c_L10 _ _ _ (HL t)); eauto.
   Qed.
 
   (* a call that returned false left the snapshot as it was *)
   Theorem unchanged_when_false t i : in_upd (pc (ls t)) = false -> ulast (ls t) = false -> uprev (ls t) i = rgen (ls t) i.
-  Proof. destruct HI as [_ HL]; cbn [fst snd] in HL. intros H1 H2. apply (L11 _ _ _ (HL t)); auto. Qed.
+  Proof. destruct HI as [_ HL]; cbn [fst snd] in HL. intros H1 H2. apply (c_L11 _ _ _ (HL t)); auto. Qed.
 
   (* a snapshot never runs ahead of the container *)
   Theorem snapshot_not_ahead t i : rgen (ls t) i <= gens g i.
-  Proof. destruct HI as [_ HL]; cbn [fst snd] in HL. apply (L2 _ _ _ (HL t)). Qed.
+  Proof. destruct HI as [_ HL]; cbn [fst snd] in HL. apply (c_L2 _ _ _ (HL t)). Qed.
 
   (* log entries are sound: the slot really has reached the logged generation *)
   Theorem log_sound i gm ch e : In (i, gm, ch, e) (oplog g) -> i < cap g /\ gm <= gens g i /\ ch <= change g /\ e < clock g.
